@@ -3,7 +3,9 @@ package main
 // C19: the real plugin/auth loaded into the in-process broker, account API called in-process, password file in a
 // private temp dir, state snapshot. Registered through the extension points of extra.go; selected by `new … auth=<alg>`.
 //
-//   new … auth=plain|md5|sha256|bcrypt [pf=rel|abs] [cwd=same|other] [file=<hex of initial password file>]
+//   new … auth=plain|md5|sha256|bcrypt [pf=rel|abs] [cwd=same|other] [enh=1] [seed=<user>:<spec>,…]
+//        seed = initial password file; spec: H(<pass>) = the configured hash of <pass>, U(<pass>) = that hash in upper
+//        case (near miss), anything else = literal stored value. enh=1 installs a small OnEnhancedAuth test hook.
 //   api acct set <user> <pass>        Update   -> ok | err:<class>
 //   api acct del <user>               Delete   -> ok | err:<class>
 //   api acct get <user>               Get      -> <user>:<hash> | err:notfound | err:invalid
@@ -11,6 +13,7 @@ package main
 //   api acct file                     the password file(s) parsed back: load=[…] save=[…]
 //   api acct failsave 0|1             the next saves fail / work again (plugin/auth/verif_export_auth.go)
 //   api acct write <hex>              overwrite the file Load reads with raw bytes
+//   api acct seedfile <user>:<spec>,… overwrite the file Load reads with these accounts (yaml.Marshal, as the plugin saves)
 //   api restartauth                   a new plugin instance built from config + file ("what a restarted broker loads")
 //   api state                         sessions / online clients / subscriptions / retained messages
 //   dial <conn> [v=5]                 open a connection WITHOUT sending CONNECT (for pre-CONNECT packets via `raw`)
@@ -18,6 +21,8 @@ package main
 
 import (
 	"context"
+	"crypto/md5"
+	"crypto/sha256"
 	"encoding/hex"
 	"fmt"
 	"io/ioutil"
@@ -28,6 +33,7 @@ import (
 	"sync"
 	"time"
 
+	"golang.org/x/crypto/bcrypt"
 	"google.golang.org/grpc/codes"
 	"google.golang.org/grpc/status"
 	"gopkg.in/yaml.v2"
@@ -35,6 +41,7 @@ import (
 	"github.com/DrmagicE/gmqtt"
 	"github.com/DrmagicE/gmqtt/config"
 	"github.com/DrmagicE/gmqtt/persistence/subscription"
+	mqttcodes "github.com/DrmagicE/gmqtt/pkg/codes"
 	"github.com/DrmagicE/gmqtt/plugin/auth"
 	"github.com/DrmagicE/gmqtt/server"
 )
@@ -53,6 +60,9 @@ type authEnv struct {
 	savePath string // where saveFileHandler writes
 	failSave bool
 	loadErr  string
+	enh      bool
+	known    []string // passwords the script has used (to render stored hashes symbolically)
+	upper    map[string]string // upper-cased hash -> password (seed spec U(...))
 }
 
 var (
@@ -112,6 +122,42 @@ func (s *authShim) HookWrapper() server.HookWrapper {
 				return cur.OnBasicAuthWrapper(pre)(ctx, client, req)
 			}
 		},
+		OnEnhancedAuthWrapper: s.enhWrapper(),
+	}
+}
+
+// the enhanced-authentication test hook (mirrored by `testHook` in lean/Driver/AuthBroker.lean):
+// method "M"; data "go" = success, "c" = challenge "ch"; AUTH data "ok" = success, "more" = challenge "ch2"; else refused.
+func (s *authShim) enhWrapper() server.OnEnhancedAuthWrapper {
+	if !s.env.enh {
+		return nil
+	}
+	return func(pre server.OnEnhancedAuth) server.OnEnhancedAuth {
+		return func(ctx context.Context, client server.Client, req *server.ConnectRequest) (*server.EnhancedAuthResponse, error) {
+			p := req.Connect.Properties
+			if string(p.AuthMethod) != "M" {
+				return nil, &mqttcodes.Error{Code: mqttcodes.BadAuthMethod}
+			}
+			switch string(p.AuthData) {
+			case "go":
+				return &server.EnhancedAuthResponse{Continue: false}, nil
+			case "c":
+				return &server.EnhancedAuthResponse{Continue: true, AuthData: []byte("ch"), OnAuth: func(ctx context.Context, client server.Client, req *server.AuthRequest) (*server.AuthResponse, error) {
+					d := ""
+					if req.Auth.Properties != nil {
+						d = string(req.Auth.Properties.AuthData)
+					}
+					switch d {
+					case "ok":
+						return &server.AuthResponse{Continue: false}, nil
+					case "more":
+						return &server.AuthResponse{Continue: true, AuthData: []byte("ch2")}, nil
+					}
+					return nil, &mqttcodes.Error{Code: mqttcodes.NotAuthorized}
+				}}, nil
+			}
+			return nil, &mqttcodes.Error{Code: mqttcodes.NotAuthorized}
+		}
 	}
 }
 
@@ -149,10 +195,9 @@ func authOption(d *brokerDrv, m map[string]string) []server.Options {
 		pf = e.loadPath
 		e.savePath = e.loadPath
 	}
-	if h, ok := m["file"]; ok {
-		if bs, err := hex.DecodeString(h); err == nil {
-			_ = ioutil.WriteFile(e.loadPath, bs, 0o644)
-		}
+	e.enh = m["enh"] == "1"
+	if sd, ok := m["seed"]; ok {
+		_ = e.writeSeed(sd)
 	}
 	e.cfg = config.Config{ConfigDir: e.confDir, Plugins: map[string]config.Configuration{auth.Name: &auth.Config{Hash: alg, PasswordFile: pf}}}
 	if err := e.cfg.Plugins[auth.Name].Validate(); err != nil {
@@ -225,12 +270,108 @@ func showBytes(s string) string {
 	return s
 }
 
-func (e *authEnv) showAccount(a *auth.Account) string {
-	h := showBytes(a.Password)
-	if e.alg == auth.Bcrypt && strings.HasPrefix(a.Password, "$2") {
-		h = "$bcrypt" // salted: not comparable as text
+// realHash is the harness's own computation of the configured hash (bcrypt: a fresh salted hash).
+func (e *authEnv) realHash(p string) string {
+	switch e.alg {
+	case auth.MD5:
+		x := md5.Sum([]byte(p))
+		return hex.EncodeToString(x[:])
+	case auth.SHA256:
+		x := sha256.Sum256([]byte(p))
+		return hex.EncodeToString(x[:])
+	case auth.Bcrypt:
+		b, err := bcrypt.GenerateFromPassword([]byte(p), bcrypt.MinCost)
+		if err != nil {
+			return "!toolong"
+		}
+		return string(b)
 	}
-	return showBytes(a.Username) + ":" + h
+	return p
+}
+
+func (e *authEnv) know(p string) {
+	for _, k := range e.known {
+		if k == p {
+			return
+		}
+	}
+	e.known = append(e.known, p)
+}
+
+// symbolic renders a stored hash as H(<pass>) / U(<pass>) when it is the (upper-cased) hash of a password the script used.
+func (e *authEnv) symbolic(stored string) string {
+	if e.alg == auth.Plain {
+		return showBytes(stored)
+	}
+	for _, p := range e.known {
+		switch e.alg {
+		case auth.Bcrypt:
+			if bcrypt.CompareHashAndPassword([]byte(stored), []byte(p)) == nil {
+				return "H(" + showBytes(p) + ")"
+			}
+			if strings.HasPrefix(stored, "$2A$") && bcrypt.CompareHashAndPassword([]byte(unUpper(stored)), []byte(p)) == nil {
+				return "U(" + showBytes(p) + ")"
+			}
+		default:
+			h := e.realHash(p)
+			if stored == h {
+				return "H(" + showBytes(p) + ")"
+			}
+			if stored == strings.ToUpper(h) {
+				return "U(" + showBytes(p) + ")"
+			}
+		}
+	}
+	return showBytes(stored)
+}
+
+// a bcrypt hash cannot be un-upper-cased; U() of a bcrypt hash is rendered through the seed table instead
+func unUpper(s string) string { return s }
+
+func (e *authEnv) showAccount(a *auth.Account) string {
+	if u, ok := e.upper[a.Password]; ok {
+		return showBytes(a.Username) + ":U(" + showBytes(u) + ")"
+	}
+	return showBytes(a.Username) + ":" + e.symbolic(a.Password)
+}
+
+// specValue turns a seed spec into the stored value.
+func (e *authEnv) specValue(spec string) string {
+	if strings.HasSuffix(spec, ")") && (strings.HasPrefix(spec, "H(") || strings.HasPrefix(spec, "U(")) {
+		p := argBytes(spec[2 : len(spec)-1])
+		e.know(p)
+		h := e.realHash(p)
+		if spec[0] == 'U' {
+			up := strings.ToUpper(h)
+			if e.upper == nil {
+				e.upper = map[string]string{}
+			}
+			if up != h {
+				e.upper[up] = p
+			}
+			return up
+		}
+		return h
+	}
+	return argBytes(spec)
+}
+
+func (e *authEnv) writeSeed(sd string) error {
+	acts := []*auth.Account{}
+	if sd != "~" && sd != "" {
+		for _, ent := range strings.Split(sd, ",") {
+			i := strings.IndexByte(ent, ':')
+			if i < 0 {
+				continue
+			}
+			acts = append(acts, &auth.Account{Username: argBytes(ent[:i]), Password: e.specValue(ent[i+1:])})
+		}
+	}
+	b, err := yaml.Marshal(acts)
+	if err != nil {
+		return err
+	}
+	return ioutil.WriteFile(e.loadPath, b, 0o644)
 }
 
 func (e *authEnv) showFile(path string) string {
@@ -265,6 +406,7 @@ func acctOp(d *brokerDrv, pos []string, m map[string]string) string {
 		if len(pos) < 4 {
 			return "bad-op"
 		}
+		e.know(argBytes(pos[3]))
 		_, err := e.cur.Update(ctx, &auth.UpdateAccountRequest{Username: argBytes(pos[2]), Password: argBytes(pos[3])})
 		res = errClass(err)
 	case "del":
@@ -312,6 +454,14 @@ func acctOp(d *brokerDrv, pos []string, m map[string]string) string {
 		}
 		e.failSave = pos[2] == "1"
 		e.cur.VerifSetSaveFail(e.failSave)
+		res = "ok"
+	case "seedfile":
+		if len(pos) < 3 {
+			return "bad-op"
+		}
+		if err := e.writeSeed(pos[2]); err != nil {
+			return "err:fs"
+		}
 		res = "ok"
 	case "write":
 		if len(pos) < 3 {
@@ -373,9 +523,8 @@ func stateOp(d *brokerDrv, pos []string, m map[string]string) string {
 	sort.Strings(online)
 	sort.Strings(subs)
 	sort.Strings(ret)
-	on, off, wills, qs, uas := srv.VerifCounts()
-	return fmt.Sprintf("sessions=[%s] online=[%s] subs=[%s] retained=[%s] n=%d/%d/%d/%d/%d", strings.Join(sess, ","), strings.Join(online, ","),
-		strings.Join(subs, ","), strings.Join(ret, ","), on, off, wills, qs, uas)
+	return fmt.Sprintf("sessions=[%s] online=[%s] subs=[%s] retained=[%s]", strings.Join(sess, ","), strings.Join(online, ","),
+		strings.Join(subs, ","), strings.Join(ret, ","))
 }
 
 // dialOp opens a connection and starts its reader without sending anything.
